@@ -273,6 +273,12 @@ def explore(uname, acc, max_depth=None, state_cap=250000, time_cap=None, collect
         if time_cap is not None and time.time() - t0 > time_cap:
             closed = False
             break
+        if len(acc.viol) > 300:
+            # hundreds of distinct violation signatures: the verdict is settled, further expansion of a badly broken
+            # tree only costs time (never happens on a tree that satisfies the properties)
+            closed = False
+            acc.count('exploration_stopped_after_300_violation_signatures')
+            break
         _SEEN = set(seen) | dead
         nw = runtime.n_workers()
         chunks = runtime.split(frontier, nw * 4)
